@@ -25,7 +25,7 @@ import numpy
 
 from .. import seams
 from ..compile import World
-from ..ctx import RunTooBig
+from ..ctx import CTX, RunTooBig
 from ..history import History, canon, digest
 from ..rng import Streams, chance, pick, weighted
 from ..world import gen_situation, gen_value, gen_world
@@ -307,6 +307,7 @@ def check_calculate(res, step, world: World, ref_tbs, doc, body, do):
         res.violate("C20.fill", step, what="the API answered 200 but the engine refuses the situation", error=type(e).__name__)
         return 0
     filled = 0
+    CTX.begin()
     for plural, iid, var, per, x in walk_slots(doc):
         got = body.get(plural, {}).get(iid, {}).get(var, {}).get(per, "<missing>") if isinstance(body, dict) else "<missing>"
         if x is None:
@@ -454,6 +455,7 @@ def run(scn) -> Result:
             for step, op in enumerate(scn["ops"]):
                 do = op["do"]
                 method, path, payload = do
+                CTX.begin()
                 resp = send(client, do)
                 body = body_of(resp)
                 H.add(op["actor"], method, [path, digest(payload)], [resp.status_code, digest(strip_times(body))])
@@ -467,6 +469,7 @@ def run(scn) -> Result:
                 if frng.random() < scn.get("fresh_rate", 1.0):
                     res.count("clause:C20.history")
                     fresh = create_app(world.make_system(GenSystem)).test_client()
+                    CTX.begin()
                     fresp = send(fresh, do)
                     fbody = body_of(fresp)
                     if fresp.status_code != resp.status_code or strip_times(fbody) != strip_times(body):
